@@ -24,7 +24,7 @@ def run(rep):
     explore.explore(rep, 'family-d1', fam, 1, bases, 'checks.oracles:oracle_c08', budget_s=900 if quick else 1700)
 
     if not quick:
-        core = [s for s in fam if s['name'].startswith('chain3/mid/') and s['c08']['ending'] in ('exit-process2', 'raise-process2', 'stop-evt')]
+        core = [s for s in fam if s['name'].split('/')[1] in ('mid', 'b1', 'a') and s['c08']['ending'] in ('exit-process2', 'raise-process2', 'stop-evt', 'raise-recv', 'raise-send', 'exit-setup')]
         explore.explore(rep, 'core-d2', [{**s, 'dev_window': (100, 400)} for s in core], 2, ['fifo'], 'checks.oracles:oracle_c08', budget_s=1700)
 
     rep.assumption('distinct_nontrivial = executions with pairwise different timed wire traces (every message sent / delivered / dropped with its virtual time), per scenario; distinct_outcomes = distinct per-filter process() input sequences per scenario')
